@@ -494,11 +494,17 @@ func (p *PoolAllocator) AllocateWithOptions(ctx context.Context, opts AllocateOp
 
 // Release releases a subscriber's allocation and removes from store.
 func (p *PoolAllocator) Release(ctx context.Context, subscriberID string) error {
-	if err := p.allocator.Release(subscriberID); err != nil {
+	if p.allocator.Lookup(subscriberID) == nil {
+		return p.allocator.Release(subscriberID) // reports ErrNotAllocated
+	}
+
+	// Remove the persisted record first: if that fails the allocation stays
+	// intact in both places instead of surviving in the store only.
+	if err := p.store.RemoveAllocation(ctx, p.poolID, subscriberID); err != nil {
 		return err
 	}
 
-	return p.store.RemoveAllocation(ctx, p.poolID, subscriberID)
+	return p.allocator.Release(subscriberID)
 }
 
 // Lookup returns the allocation for a subscriber.
